@@ -20,6 +20,9 @@
     `workBound_attained` — the exponential shape of the bound is real: without its cache the
         solver proves every ambiguous sub-goal twice (main pass and last pass of `Fulfill::solve`),
         the work doubles per level of a chain (finding F18); with the cache it is linear.
+    `acyclic_call_terminates` — on acyclic instances every call (any history, any oracle, cache on
+        or off) returns a value when the goal's rank fits under the overflow depth: none of the
+        framework's asserts fires, each loop runs one round.
   REMARK (F12).  `fixedPoint_terminates` has the hypothesis "the value order has finite height"
   built into `V`.  The real value domain does not satisfy it: `Unique σ` carries a substitution and
   `Unique(V<^0>) , Unique(V<V<^0>>), …` is an infinite strictly increasing chain of answers, on
@@ -30,6 +33,7 @@
   provisional answer (so that 3 rounds suffice for every instance); termination of the SLG engine.
 -/
 import ChalkModel.Lemmas.FixedPointWork
+import ChalkModel.Lemmas.FixedPointLemmas
 
 namespace Chalk.FixedPoint.C09
 
@@ -83,6 +87,17 @@ theorem workBound_attained :
    workBound_attained_shape.2.2.2.1, workBound_attained_shape.2.2.2.2.1, workBound_attained_shape.2.2.2.2.2,
    workBound_attained_exact.2.2⟩
 
+/-- the property's sentence for the recursive framework on ACYCLIC instances: every call without
+    work budget, on a solver instance with any history (answers, interruptions, panics), returns a
+    value when the goal's rank (longest dependency chain) fits under the configured overflow depth
+    — no assert fires, every loop runs one round -/
+theorem acyclic_call_terminates (inst : Instance) (rank : Nat → Nat) (hrank : Ranked inst rank)
+    (cfg : Cfg) (h3 : cfg.fixF3 = true) (h7 : cfg.fixF7 = true) (h16 : cfg.fixF16 = true)
+    (hr : 1 ≤ cfg.rounds) (h : List Call) (caching : Bool) (c : Call) (hb : c.budget = none)
+    (hfit : rank c.goal < cfg.overflowDepth) :
+    ∃ v, (runCall inst cfg c (runHistory inst cfg h (St.fresh caching))).outcome = .value v :=
+  history_call_returns h3 h7 h16 hr (semOf_isSem inst rank hrank) hrank h caching c hb hfit
+
 /-! non-vacuity -/
 example : (chain 4).Bounded 2 1 := chain_bounded 4
 example : Monotone (fun v => v) := fun _ _ h => h
@@ -97,3 +112,4 @@ end Chalk.FixedPoint.C09
 #print axioms Chalk.FixedPoint.C09.work_bounded
 #print axioms Chalk.FixedPoint.C09.call_work_bounded
 #print axioms Chalk.FixedPoint.C09.workBound_attained
+#print axioms Chalk.FixedPoint.C09.acyclic_call_terminates
